@@ -24,9 +24,19 @@ LEVEL_TEXT = ("Theorems (Coq): number of uniforms consumed by every sampler as a
               "overload of Sample_Poisson is the history of single calls (C18_poisson_vector_is_history). Inverse_Transform_Sampling returns a point between xMin and xMax for every cdf and every generator "
               "state (C18_inverse_transform_in_range: Find_Root's clamp keeps every iterate in the bracket); Sample_Gauss is truncated at 10 sqrt(2) sigma (C18_sample_gauss_truncated). Values inside the support: a Metropolis chain (1D/2D, bounded/unbounded, every non-negative density) that is at a point of positive "
               "density never moves to a point of density zero, so with a start point inside the support every returned sample lies in the support (C18_metropolis_stays_in_support, _2d_; a start point of density "
-              "zero -- 0/0 and x/0 in IEEE arithmetic -- is NOT covered by a theorem, it is tested); detailed balance also on a bounded 2D domain (C18_acceptance_detailed_balance_2d_bounded). The walls of a bounded Metropolis domain (C18_domain_test_has_no_tolerance, _2d, C18_domain_is_closed, _2d: for EVERY number type, so verbatim for doubles): the domain test is the plain comparison, a candidate that compares beyond a wall by any amount -- one unit in the last place -- has acceptance probability exactly 0 and a candidate on a wall or between the walls is judged by the density alone (over the reals: C18_no_tolerance_band for every eps > 0, C18_closed_domain_real); that the LIBRARY's test is this comparison is checked on chains whose domain walls are placed, by a generator-side simulation of the chain in the library's arithmetic, a relative 1e-16..1e-9 on either side of a proposal the chain really makes (1D/2D, all walls, domains at magnitudes 1e-6..1e6). These history theorems are "
+              "zero -- 0/0 and x/0 in IEEE arithmetic -- is NOT covered by a theorem, it is tested); detailed balance also on a bounded 2D domain (C18_acceptance_detailed_balance_2d_bounded). The walls of a bounded Metropolis domain (C18_domain_test_has_no_tolerance, _2d, C18_domain_is_closed, _2d: for EVERY number type, so verbatim for doubles): the domain test is the plain comparison, a candidate that compares beyond a wall by any amount -- one unit in the last place -- has acceptance probability exactly 0 and a candidate on a wall or between the walls is judged by the density alone (over the reals: C18_no_tolerance_band, for every eps > 0 beyond a wall and every point of [lo, hi]); that the LIBRARY's test is this comparison is checked on chains whose domain walls are placed, by a generator-side simulation of the chain in the library's arithmetic, a relative 1e-16..1e-9 on either side of a proposal the chain really makes (1D/2D, all walls, domains at magnitudes 1e-6..1e6). These history theorems are "
               "about the model, in which no sampler has state of its own; that the LIBRARY has none (no static, no cache between calls) is checked, not proved: seqh cases compare every call of a history "
-              "with a pristine process, with near-equal arguments in consecutive calls and decision values on a ladder 1e-16..1e-3 around the thresholds. NOT theorems: the distributional clauses (Kolmogorov-Smirnov, chi-square, moments) — they are "
+              "with a pristine process, with near-equal arguments in consecutive calls and decision values on a ladder 1e-16..1e-3 around the thresholds. "
+              "BURN-IN / THINNING BOOKKEEPING (C18_metropolis_thinning_is_selection, no hypothesis, every number type, 1D and 2D): the call (sample, thinning, burn_in) IS the call "
+              "(i_max, 1, 0), i_max = (burn_in + thinning*sample) mod 2^32 -- same chain states, same generator state left behind, same failure -- followed by the selection of the states of the loop indices "
+              "i >= burn_in with i mod thinning = 0; inside the quantifier (thinning >= 1, no overflow) sample j is the state of the un-thinned chain at loop index thinning*(ceil(burn_in/thinning)+j) "
+              "(C18_metropolis_which_states_are_returned, C18_select_closed_form: induction over chains of any length; the index is counted from 0, not from burn_in). The proposal is a random walk: "
+              "Sample_Gauss(x, sigma) = x + sqrt(2) sigma Inv_Erf(2 xi - 1), the displacement depends on the deviate and sigma only (C18_proposal_is_random_walk, every number type; over R the same deviate gives "
+              "the same displacement from every point). LAW, partial (C18_sample_uniform_law_partial): for a < b the event {Sample_Uniform <= t} is the event {u <= (t-a)/(b-a)} of the canonical uniform and "
+              "u -> output is strictly increasing, i.e. the output has the uniform distribution function GIVEN that the canonical deviate is uniform on [0,1) (a property of std::mt19937/generate_canonical, "
+              "tested, not proved). Still not theorems: the symmetry of the proposal displacement (Inv_Erf is a root-finder; with it and the proved detailed balance of the acceptance the stationarity of the target "
+              "would follow) and the laws of the Sample_Gauss / Sample_Poisson / inverse-transform / rejection / Metropolis outputs. Rejection_Sampling(_2D) terminates (C18_rejection_terminates, every number type, every density): a generator that can deliver 2*9999 (3*9999) uniforms is never exhausted, the call returns or aborts at the 10000th trial. Non-vacuity examples are collected in C18_examples. "
+              "NOT theorems: the distributional clauses (Kolmogorov-Smirnov, chi-square, moments) — they are "
               "tested on the implementation with fixed seeds at significance 1e-9 (S4); that std::mt19937/generate_canonical produce the stream handed to the model is "
               "checked by the correspondence (a pure-Python MT19937 computes the uniforms of every case) and by the consumption count/next raw output comparison.")
 LEVEL_NOTE = ("Coq 8.16.1; theorems over R use the standard library's real-number axioms, counting theorems are axiom-free; std::mt19937 + std::uniform_real_distribution are "
@@ -1567,4 +1577,45 @@ def extra(ctx, rng):
                          "forbidden_found": found, "libphysica_callees_of_Statistics.o": sorted({s.split("(")[0] for s in und["Statistics.o"] if s.startswith("libphysica::")})}
     for obj, bad in found.items():
         res["violations"].append({"sig": "link:randomness-source", "msg": f"{obj} references another source of randomness/time: {bad[:4]}", "case": f"nm -C -u {obj}", "impl": "; ".join(bad[:6]), "model": ""})
+    try: selection_stage(ctx, rng, res)
+    except Exception as e: res["broken"].append({"kind": "selection-stage", "what": f"{e!r}"})
     return res
+
+
+def selection_stage(ctx, rng, res):
+    """C18_metropolis_thinning_is_selection on the LIBRARY (a dozen pairs of short chains, milliseconds): the call (sample, thinning, burn_in) and the
+    call (i_max, 1, 0) from the same generator state -- the first must return exactly the states of the second at the loop indices i >= burn_in with
+    i % thinning == 0, consume the same number of uniforms and leave the same generator state."""
+    from vcheck import run_exe, canon_impl
+    pairs = []
+    for k in range(12):
+        d2 = k % 3 == 2
+        th = rng.choice([1, 2, 3, 5, 7]); b = rng.choice([0, 1, 2, 3, 4, 6, 9, 11]); sm = rng.randrange(1, 6)
+        if k == 0: th, b, sm = 3, 7, 4
+        im = b + th * sm
+        sd = rng.randrange(2 ** 32)
+        if d2:
+            dom = rng.choice([[], [0.0, 1.0, 0.0, 1.0]]); head = f"metro2 {hx(0.3)} {hx(0.2)}"; fx = "+ x y" if dom else fx_peak2(0.0, 1.0, 0.0, 1.0); n = 2 + 3 * im
+        else:
+            dom = rng.choice([[], [-1.0, 2.0]]); head = f"metro {hx(0.7)}"; fx = T1["gauss"][0]; n = 1 + 2 * im
+        thin = seq_case(sd, [f"{head} {sm} {th} {b} {flist(dom)} {fx}"], n + 1, ("selection",))
+        full = seq_case(sd, [f"{head} {im} 1 0 {flist(dom)} {fx}"], n + 1, ("selection",))
+        pairs.append((d2, sm, th, b, im, thin.line, full.line))
+    lines = [x for p in pairs for x in p[5:7]]
+    out = [canon_impl(l) for l in run_exe(ctx["exe"], lines, ctx["work"], "impl_selection", env=HARNESS_ENV if "HARNESS_ENV" in globals() else None)]
+    done = 0
+    for j, (d2, sm, th, b, im, lt, lf) in enumerate(pairs):
+        ot, of = out[2 * j].split(), out[2 * j + 1].split()
+        dim = 2 if d2 else 1
+        try:
+            nt, nf = int(ot[0]), int(of[0])
+            vt = ot[1:1 + dim * nt]; vf = of[1:1 + dim * nf]; tt = ot[1 + dim * nt:]; tf = of[1 + dim * nf:]
+        except (ValueError, IndexError):
+            res["violations"].append({"sig": "metro:thinning-selection", "msg": "unexpected answer to a short Metropolis chain", "case": lt, "impl": out[2 * j] + " | " + out[2 * j + 1], "model": ""}); continue
+        want = [x for i in range(im) if i >= b and i % th == 0 for x in vf[dim * i:dim * i + dim]]
+        if nf != im or nt != sm or vt != want or tt != tf:
+            res["violations"].append({"sig": "metro:thinning-selection", "msg": f"Sample_Metropolis{'_2D' if d2 else ''}(sample={sm}, thinning={th}, burn_in={b}) is not the selection of the loop indices "
+                                      f"i >= burn_in, i % thinning == 0 from the chain (sample={im}, thinning=1, burn_in=0) run from the same generator state (or leaves another generator state): "
+                                      f"got {nt} samples {vt[:6]}, the selection is {len(want) // dim} samples {want[:6]}; tails {tt} / {tf}", "case": lt, "impl": out[2 * j] + " | " + out[2 * j + 1], "model": ""})
+        else: done += 1
+    res["thinning_selection_pairs"] = {"pairs": len(pairs), "agree": done}
